@@ -206,7 +206,7 @@ Proof.
   intros its f w maxrow cur v Hok Hw Hmr HV.
   destruct HV as (Efp & Efr & Ecu & t2 & t4 & restA & takenB & restB & Hab & Hbe & Eva & Evb & F).
   cbv zeta in F.
-  destruct F as (FJ & Ftt & Ftb & Ffr & Fex & Ftt2 & Ffoc & Fcur).
+  destruct F as (Ftop & Fbot & FJ & Ftt & Ftb & Ffr & Fex & Ftt2 & Ffoc & Fcur).
   destruct (split_at its f w Hw) as (Esplit & Ltake & Hfr).
   assert (Hokp : heights_ok (takez f its) /\ heights_ok (w :: dropz (f + 1) its))
     by (apply heights_ok_app; now rewrite <- Esplit).
